@@ -344,9 +344,11 @@ def average_link_graph(G):
         m = (K.weights).argmax()
         cost = K.weights[m]
         k = q + n
-        height[k] = cost
         i = K.edges[m, 0]
         j = K.edges[m, 1]
+        # fi * w + fj * w rounds: never let a merge be more similar than its
+        # children (leaves are at inf)
+        height[k] = min(cost, height[i], height[j])
 
         # 2. remove the current edge
         K.edges[m] = -1
